@@ -342,6 +342,24 @@ def run_sum_signs(interp, c):
     lemma(c, "sum of non-negative terms is non-negative, step", T.implies(T.and_(T.le(0, psum(body, m0)), T.le(0, f(m0))), T.le(0, psum(body, T.add(m0, 1)))))
 
 
+def run_sum_membership(interp, c):
+    """the two facts about finite sums instantiated by contracts/valid_agg_tasks.py
+    (sum_member, sum_witness): by induction on the length, for an arbitrary body f"""
+    f = T.uf("in.g", [INT], REAL)
+    body = lambda i: f(i)
+    m, i = T.var("m", INT), T.var("i", INT)
+    c.assume(T.le(0, m))
+    c.assume(T.le(0, i))
+    # S1: f >= 0 everywhere  ->  forall i < n. f(i) <= psum(n).   Induction on n for a fixed i.
+    lemma(c, "a term of a sum of non-negative terms is at most the sum, base (no term)", T.implies(T.lt(i, 0), T.le(f(i), psum(body, 0))))
+    lemma(c, "a term of a sum of non-negative terms is at most the sum, step",
+          T.implies(T.and_(T.implies(T.lt(i, m), T.le(f(i), psum(body, m))), T.le(0, psum(body, m)), T.le(0, f(m)), T.le(0, f(i)), T.lt(i, T.add(m, 1))),
+                    T.le(f(i), psum(body, T.add(m, 1)))))
+    # S2: (forall i < n. f(i) <= 0) -> psum(n) <= 0, i.e. a positive sum has a positive term
+    lemma(c, "a sum of non-positive terms is non-positive, base (no term)", T.le(psum(body, 0), 0))
+    lemma(c, "a sum of non-positive terms is non-positive, step", T.implies(T.and_(T.le(psum(body, m), 0), T.le(f(m), 0)), T.le(psum(body, T.add(m, 1)), 0)))
+
+
 def run_lean(interp, c):
     """the Lean lemma file: quick tier = the committed proof-check stamp matches the file;
     thorough tier = lean re-checks the file (about 2-4 minutes, Mathlib import)"""
@@ -370,6 +388,7 @@ def run_lean(interp, c):
 def all_tasks():
     return [
         Task("lemma:sum-signs", run_sum_signs, props=("C07",), func="pyvc.vc.sum_sign_lemmas"),
+        Task("lemma:sum-membership", run_sum_membership, props=("C06",), func="contracts.valid_agg_tasks.sum_member/sum_witness"),
         Task("lean:lemmas/Metanet.lean", run_lean, props=("C02", "C14", "C17", "C18"), func="lemmas/Metanet.lean"),
         Task("lemma:origin-flow-bounds(ramps)", run_c17_ramps, props=("C17",), func="EngineSpec.origins.get_ramp_flow/get_simplifiedramp_flow"),
         Task("lemma:origin-flow-bounds(mainstream)", run_c17_mainstream, props=("C17",), func="EngineSpec.origins.get_mainstream_flow"),
